@@ -8,7 +8,7 @@ set_option linter.unusedSimpArgs false
 set_option linter.unusedVariables false
 
 namespace Unyt.C11
-open Unyt Unyt.Persist
+open Unyt Unyt.Persist Unyt.Ufunc
 
 theorem filterMap_eq_self {α : Type} (f : α → Option α) (l : List α)
     (h : ∀ a ∈ l, f a = some a) : l.filterMap f = l := by
@@ -206,6 +206,107 @@ theorem restore_erase (cfg : RouteCfg) (pre : Prefixes K) (dflt : Lut K) (x : PO
   cases ha : restoreUnit cfg pre (restoreReg cfg dflt x.reg) x.unit <;>
     cases hb : restoreUnit (keepIdentity cfg) pre (restoreReg (keepIdentity cfg) dflt x.reg) x.unit <;>
     simp only [ha, hb, Except.map] at hu ⊢ <;> simp_all [PObj.erase]
+
+/-! ### the dispatcher's unary path does not look at the identity bit of a non-base dimension -/
+
+def stripO (o : Outcome K) : Outcome K := { o with unit := o.unit.map UnitV.noCanon }
+def stripP (p : K × Option (UnitV K)) : K × Option (UnitV K) := (p.1, p.2.map UnitV.noCanon)
+
+theorem base3_facts (u : UnitV K) (h : Dim.isBase3 u.dim = false) :
+    (u.dim == Dim.dAngle) = false ∧ (u.dim == Dim.dTemperature) = false ∧ (u.dim == Dim.dLogarithmic) = false := by
+  simp only [Dim.isBase3, Bool.or_eq_false_iff] at h
+  exact ⟨h.1.1, h.1.2, h.2⟩
+
+theorem pow_canon (u : UnitV K) (p : Rat) (h : (u.dim == Dim.dLogarithmic) = false) :
+    UnitV.pow { u with canon := false } p = UnitV.pow u p := by
+  simp [UnitV.pow, UnitV.isLogarithmic, h]
+
+theorem mul_self_canon (u : UnitV K) (h : (u.dim == Dim.dLogarithmic) = false) :
+    UnitV.mul { u with canon := false } { u with canon := false } = UnitV.mul u u := by
+  simp [UnitV.mul, UnitV.mulOffset, UnitV.isLogarithmic, UnitV.isTempOrAngle, UnitV.isDimensionless, h]
+
+theorem applyRule1_canon (C : Ufunc.Ctx K) (r : Rule) (u : UnitV K) (rp : String)
+    (h : Dim.isBase3 u.dim = false) :
+    (applyRule1 C r ⟨{ u with canon := false }, rp⟩).map stripP = (applyRule1 C r ⟨u, rp⟩).map stripP := by
+  obtain ⟨h1, h2, h3⟩ := base3_facts u h
+  cases r <;>
+    simp [applyRule1, differenceUnits, preserveUnits, isTemperature, h2, pow_canon u _ h3, mul_self_canon u h3,
+      stripP, UnitV.noCanon, Except.map]
+
+theorem wrapUp_none_result (T : Tables) (eff : List (Effect K)) (c : Call K) (hc : c.out = .none) (mul : K)
+    (unit : Option (UnitV K)) (factor : Option K) (fsz : Option Nat) :
+    (wrapUp T eff c false mul unit factor fsz).result
+      = .ok { unit := unit, factor := factor, factorItemsize := fsz, mul := mul } := by
+  simp [wrapUp, wrapClassFails, finishOut, hc]
+
+theorem ru_result_canon (T : Tables) (eff : List (Effect K)) (c : Call K) (hc : c.out = .none)
+    (a b : Except Err (K × Option (UnitV K))) (factor : Option K) (hab : a.map stripP = b.map stripP) :
+    (match a with
+      | .error e => (⟨eff, .error e⟩ : Run K)
+      | .ok (mul, unit) => wrapUp T eff c false mul unit factor none).result.map stripO
+    = (match b with
+      | .error e => (⟨eff, .error e⟩ : Run K)
+      | .ok (mul, unit) => wrapUp T eff c false mul unit factor none).result.map stripO := by
+  cases a with
+  | error e1 =>
+    cases b with
+    | error e2 => simp [Except.map] at hab; simp [hab]
+    | ok p2 => simp [Except.map] at hab
+  | ok p1 =>
+    cases b with
+    | error e2 => simp [Except.map] at hab
+    | ok p2 =>
+      obtain ⟨m1, u1⟩ := p1
+      obtain ⟨m2, u2⟩ := p2
+      simp only [Except.map, stripP, Except.ok.injEq, Prod.mk.injEq] at hab
+      simp only [wrapUp_none_result T eff c hc, Except.map, stripO, hab.1, hab.2]
+
+theorem unaryPath_canon (Cx : Ufunc.Ctx K) (c : Call K) (hc : c.out = .none) (cls : Cls) (u : UnitV K)
+    (rp : String) (d : Data) (eff : List (Effect K)) (h : Dim.isBase3 u.dim = false) :
+    (unaryPath Cx c (.unyt cls ⟨{ u with canon := false }, rp⟩ d) eff).result.map stripO
+      = (unaryPath Cx c (.unyt cls ⟨u, rp⟩ d) eff).result.map stripO := by
+  obtain ⟨h1, h2, h3⟩ := base3_facts u h
+  simp only [unaryPath, isAngle, h1, Bool.and_false, Bool.false_and, Bool.false_eq_true, if_false]
+  cases c.kernelErr with
+  | some e => rfl
+  | none =>
+    simp only
+    apply ru_result_canon Cx.T _ c hc
+    split
+    · simp only [powerMapUnit]
+      cases Cx.T.powerMap.find? (fun x => x.1 == c.ufunc) with
+      | none => rfl
+      | some r => simp [pow_canon u _ h3]
+    · cases Cx.T.ruleOf c.ufunc with
+      | none => rfl
+      | some r => exact applyRule1_canon Cx r u rp h
+
+theorem read_off_canon (vals : List K) (num : Outcome K → K → K)
+    (hnum : ∀ o o' : Outcome K, o.factor = o'.factor → o.mul = o'.mul → num o = num o')
+    (r1 r2 : Except Err (Outcome K)) (h : r1.map stripO = r2.map stripO) :
+    (match r1 with
+      | .error e => (.error e : Except Err (Res K))
+      | .ok o => .ok ⟨vals.map (num o), o.unit⟩).map Res.noCanon
+    = (match r2 with
+      | .error e => (.error e : Except Err (Res K))
+      | .ok o => .ok ⟨vals.map (num o), o.unit⟩).map Res.noCanon := by
+  cases r1 with
+  | error e1 =>
+    cases r2 with
+    | error e2 => simp [Except.map] at h; simp [h]
+    | ok o2 => simp [Except.map] at h
+  | ok o1 =>
+    cases r2 with
+    | error e2 => simp [Except.map] at h
+    | ok o2 =>
+      simp only [Except.map, stripO, Except.ok.injEq] at h
+      have hf : o1.factor = o2.factor := by
+        have := congrArg Outcome.factor h; simpa using this
+      have hm : o1.mul = o2.mul := by
+        have := congrArg Outcome.mul h; simpa using this
+      have hu : o1.unit.map UnitV.noCanon = o2.unit.map UnitV.noCanon := by
+        have := congrArg Outcome.unit h; simpa using this
+      simp only [Except.map, Res.noCanon, hnum o1 o2 hf hm, hu]
 
 end
 end Unyt.C11
